@@ -1,8 +1,9 @@
-(* The demuxer model with its unit parsers instantiated. *)
+(* The demuxer model with its unit parsers instantiated: parsePSIData + toData, parsePESData. *)
 From Coq Require Import ZArith List.
-Require Import Base.Iter Gen.Types Model.Demux.
+Require Import Base.Iter Gen.Types Model.Demux Model.Pes Model.Psi.
 Import ListNotations.
 Open Scope Z_scope.
 
-(* PLACEHOLDER until Model/Psi.v and Model/Pes.v are merged *)
-Definition full_parsers : dparsers := mk_dparsers (fun _ _ _ => Ok []) (fun _ => Err E_generic).
+Definition full_parsers : dparsers :=
+  mk_dparsers (fun payload fp pid => res_map (fun d => psi_to_data d fp pid) (parse_psi_data_bytes payload))
+              parse_pes_data_bytes.
